@@ -13,7 +13,7 @@ TARGET_FUNCS = {"__enter__", "__exit__", "inject", "convert_field_name", "conver
 
 
 class Baton:
-    def __init__(self, n, rng=None, mean_gap=50, p_target=0.0, replay=None, max_steps=5_000_000, p_first=0.0):
+    def __init__(self, n, rng=None, mean_gap=50, p_target=0.0, replay=None, max_steps=3_000_000, p_first=0.0):
         self.n = n
         self.rng = rng
         self.mean_gap = max(1, mean_gap)
@@ -43,6 +43,7 @@ class Baton:
         self.switches = []  # [step, from, to]
         self.all_done = threading.Event()
         self.max_steps = max_steps
+        self.over_budget = False
         self.errors = []
         # reach probes
         self.in_generate_code = [False] * n
@@ -83,7 +84,10 @@ class Baton:
     def _point(self, me, frame):
         self.step += 1
         if self.step > self.max_steps:
-            raise RuntimeError("baton: step budget exceeded")
+            # never raise into the code under test: stop pre-empting, let the threads finish one after the other, and
+            # report the run as over budget (the caller skips it)
+            self.over_budget = True
+            return
         if self.replay is not None:
             to = self.replay.get(self.step)
             if to is not None and to != me and 0 <= to < self.n and not self.done[to]:
@@ -107,6 +111,8 @@ class Baton:
         opfile = self.opcode_file
 
         def local(frame, event, arg):
+            if self.over_budget:
+                return None
             if event == "line":
                 self._point(me, frame)
             elif event == "opcode":
@@ -115,7 +121,7 @@ class Baton:
             return local
 
         def glob(frame, event, arg):
-            if event != "call":
+            if event != "call" or self.over_budget:
                 return None
             code = frame.f_code
             fn = code.co_filename
